@@ -48,8 +48,8 @@ N = {'quick': 6400, 'thorough': 400000}
 # DynamicSegment name scan) and 10.0 on the largest ratio (dwarf_gnuops4.so.elf); requested bytes at most
 # 1.31 per byte.  See ASSUMPTIONS for the final numbers.
 SIZE_FLOOR = 65536
-LINE_A, LINE_B = 0, 32        # budget = 32 * max(len, 64 KiB) >= 2.1e6 line events
-BYTE_A, BYTE_B = 0, 160       # budget = 160 * max(len, 64 KiB) >= 10.5e6 requested bytes
+LINE_A, LINE_B = 0, 80        # budget = 80 * max(len, 64 KiB) >= 5 242 880 line events per battery step
+BYTE_A, BYTE_B = 0, 256       # bound = 256 * max(len, 64 KiB) >= 16 MiB, for bytes read per step and for one read()
 
 ASSUMPTIONS = [
     'streams are io.BytesIO (subclass counting requested bytes); read(n) on BytesIO never allocates more than the '
@@ -120,19 +120,26 @@ def _ltrace(frame, event, arg):
 
 
 class CountingBytesIO(io.BytesIO):
-    """BytesIO that counts the number of bytes *requested* through read()."""
+    """BytesIO that counts what is asked of it through read():
+    req = sum of requested sizes, got = sum of delivered sizes, peak = largest single request."""
 
     def __init__(self, data):
         io.BytesIO.__init__(self, data)
-        self.req = 0
         self.nbytes = len(data)
+        self.reset()
+
+    def reset(self):
+        self.req = self.got = self.peak = 0
 
     def read(self, n=-1):
+        r = io.BytesIO.read(self, n)
         if n is None or n < 0:
-            self.req += max(self.nbytes - self.tell(), 0)
-        else:
-            self.req += n
-        return io.BytesIO.read(self, n)
+            n = len(r)
+        self.req += n
+        self.got += len(r)
+        if n > self.peak:
+            self.peak = n
+        return r
 
 
 def line_budget(n):
@@ -157,29 +164,35 @@ class Battery:
         self.excs = {}       # step -> exception type names seen
 
     def _run(self, step, fn):
-        """Run fn() under the meter; the step's counters accumulate over calls."""
-        lines, req, outcome = self.work.get(step, (0, 0, 'ok'))
-        if outcome == 'budget':
+        """Run fn() under the meter; the step's counters accumulate over calls.
+        work[step] = [line events, bytes delivered, largest single request, bytes requested, outcome]"""
+        w = self.work.setdefault(step, [0, 0, 0, 0, 'ok'])
+        if w[4] == 'budget':
             return None
-        _m.n = lines
+        _m.n = w[0]
         _m.limit = self.limit
-        self.stream.req = 0
+        st = self.stream
+        st.reset()
         old = sys.gettrace()
         res = None
         sys.settrace(_gtrace)
         try:
             res = fn()
         except _Budget:
-            outcome = 'budget'
+            w[4] = 'budget'
             self.blown.append(step)
         except MemoryError:
-            outcome = 'memory'
+            w[4] = 'memory'
         except Exception as e:  # noqa - any exception is a legitimate way to terminate
             self.excs.setdefault(step, set()).add(type(e).__name__)
-            outcome = 'raised' if outcome == 'ok' else outcome
+            if w[4] == 'ok':
+                w[4] = 'raised'
         finally:
             sys.settrace(old)
-        self.work[step] = (_m.n, req + self.stream.req, outcome)
+        w[0] = _m.n
+        w[1] += st.got
+        w[2] = max(w[2], st.peak)
+        w[3] += st.req
         return res
 
     @staticmethod
@@ -443,7 +456,7 @@ def pair_values(fld, orig, file_len, tier):
     if tier == 'thorough':
         return boundary_values(fld, orig, file_len)
     m = (1 << (8 * fld['size'])) - 1
-    raw = [0, 1, 0xffff, m, file_len + 1, fld['S'] - 1]
+    raw = [0, 0xffff, 1 << 31, m, file_len + 1, fld['S'] - 1]
     out = []
     for v in raw:
         v &= m
@@ -734,7 +747,7 @@ def run_case(ctx, case):
         for step in Battery.STEPS:
             if step not in b.work:
                 continue
-            lines, req, outcome = b.work[step]
+            lines, got, peak, req, outcome = b.work[step]
             ctx.count('battery.step.%s.%s' % (step, outcome))
             if outcome == 'budget':
                 ctx.fail('battery.line-budget|step=%s' % step,
@@ -744,10 +757,15 @@ def run_case(ctx, case):
             elif outcome == 'memory':
                 ctx.fail('battery.MemoryError|step=%s' % step, 'battery step %s raised MemoryError on a %d-byte input'
                          % (step, len(data)), case)
-            if req > bb:
-                ctx.fail('battery.bytes-requested|step=%s' % step,
-                         'battery step %s requested %d bytes from the stream of a %d-byte input (budget %d + '
-                         '%d*max(len,%d) = %d)' % (step, req, len(data), BYTE_A, BYTE_B, SIZE_FLOOR, bb), case)
+            if peak > bb:
+                ctx.fail('battery.read-size|step=%s' % step,
+                         'battery step %s asked the stream of a %d-byte input for %d bytes in a single read() (bound '
+                         '%d + %d*max(len,%d) = %d); a file object allocates the requested size'
+                         % (step, len(data), peak, BYTE_A, BYTE_B, SIZE_FLOOR, bb), case)
+            if got > bb:
+                ctx.fail('battery.bytes-read|step=%s' % step,
+                         'battery step %s read %d bytes in total from a %d-byte input (bound %d + %d*max(len,%d) = %d)'
+                         % (step, got, len(data), BYTE_A, BYTE_B, SIZE_FLOOR, bb), case)
         for step, names in b.excs.items():
             for nm in names:
                 ctx.count('battery.exc.%s' % nm)
@@ -768,8 +786,12 @@ def _field_value(sc, seed, fld):
     return _u(seed, fld['off'], fld['size'], sc.le)
 
 
+NON_STEERING = ('sh_name', 'sh_addr', 'sh_addralign', 'p_vaddr', 'p_paddr', 'p_align', 'p_memsz', 'p_flags', 'e_entry',
+                'e_flags', 'e_version', 'e_ehsize')   # parsed by the battery but never used for an offset/count/type
+
+
 def enum_truncations(tier):
-    """every truncation length of the small seeds"""
+    """every truncation length of the small seeds (quick: shipped files of 1..4 KiB are sub-sampled)"""
     for src in small_seeds():
         seed = seed_bytes(src)
         n = len(seed)
@@ -777,7 +799,7 @@ def enum_truncations(tier):
         if tier == 'thorough' or src.startswith('gen:') or n <= 1024:
             lengths = range(0, n + 1)
         else:
-            keep = set(range(0, 129)) | set(range(0, n + 1, 7)) | {n - 2, n - 1, n}
+            keep = set(range(0, 129)) | set(range(0, n + 1, 31)) | {n - 2, n - 1, n}
             for bnd in sc.boundaries:
                 keep.update((bnd - 1, bnd, bnd + 1))
             lengths = sorted(k for k in keep if 0 <= k <= n)
@@ -797,8 +819,8 @@ def enum_big_truncations(tier):
             continue
         keep = set()
         bnds = sorted(sc.boundaries)
-        if tier == 'quick' and len(bnds) > 24:
-            bnds = bnds[:8] + bnds[len(bnds) // 2 - 4:len(bnds) // 2 + 4] + bnds[-8:]
+        if tier == 'quick' and len(bnds) > 9:
+            bnds = bnds[:3] + bnds[len(bnds) // 2 - 1:len(bnds) // 2 + 2] + bnds[-3:]
         for bnd in bnds:
             keep.update((bnd - 1, bnd, bnd + 1))
         for k in sorted(k for k in keep if 0 < k < sz):
@@ -807,7 +829,7 @@ def enum_big_truncations(tier):
 
 
 def enum_byte_subst(tier):
-    cap = STORE_MAX if tier == 'quick' else 1 << 16
+    cap = SMALL if tier == 'quick' else 1 << 16
     srcs = gen_seed_names() + ['file:' + p for p, sz in shipped_elfs() if sz <= cap]
     for src in srcs:
         seed = seed_bytes(src)
@@ -818,26 +840,34 @@ def enum_byte_subst(tier):
 
 
 def enum_single_fields(tier):
-    for src in small_seeds(SMALL if tier == 'quick' else STORE_MAX):
+    """every field x every boundary value (quick: reduced value set for fields that steer nothing and for
+    shipped files; shipped files <= 1 KiB only)"""
+    for src in small_seeds(1024 if tier == 'quick' else STORE_MAX):
         sc = seed_scan(src)
         if not sc.ok:
             continue
         seed = seed_bytes(src)
+        gen = src.startswith('gen:')
         for fld in sc.fields:
-            if tier == 'quick' and src.startswith('file:') and fld['group'] == 'hdr' and \
-                    fld['label'].split('.')[-1] in ('sh_name', 'sh_addr', 'sh_addralign', 'p_vaddr', 'p_paddr', 'p_align',
-                                                    'p_memsz', 'p_flags', 'e_entry', 'e_flags', 'e_version', 'e_ehsize'):
-                continue      # parsed but never used by the battery; kept for generated seeds and in thorough
+            steer = fld['label'].split('.')[-1] not in NON_STEERING
             orig = _field_value(sc, seed, fld)
-            for v in boundary_values(fld, orig, len(seed)):
+            if tier == 'thorough' or (gen and steer):
+                vals = boundary_values(fld, orig, len(seed))
+            elif steer:
+                vals = pair_values(fld, orig, len(seed), 'quick')
+            elif gen:
+                vals = pair_values(fld, orig, len(seed), 'quick')[:1] + pair_values(fld, orig, len(seed), 'quick')[3:5]
+            else:
+                continue
+            for v in vals:
                 yield make_case(src, [['set', fld['label'], fld['off'], fld['size'], v]], 'field1')
 
 
 def pair_seeds(tier):
-    out = [s for s in gen_seed_names() if s[4:-4] in ('sec', 'full', 'xnum', 'seg')]
     if tier == 'thorough':
-        out += ['file:' + p for p, sz in shipped_elfs() if sz <= 2048]
-    return out
+        return ([s for s in gen_seed_names() if s[4:-4] in ('sec', 'full', 'xnum', 'seg')] +
+                ['file:' + p for p, sz in shipped_elfs() if sz <= 2048])
+    return [s for s in gen_seed_names() if s[4:-4] in ('sec', 'xnum', 'seg')] + ['gen:full64le', 'gen:full32be']
 
 
 def enum_field_pairs(tier):
@@ -1048,17 +1078,18 @@ def _measure():
             continue
         b = Battery(ef, st, len(data), limit=1 << 62)
         nsec, nseg = b.run()
-        step, (lines, _, _) = max(b.work.items(), key=lambda kv: kv[1][0])
-        bstep, (_, req, _) = max(b.work.items(), key=lambda kv: kv[1][1])
+        step, w = max(b.work.items(), key=lambda kv: kv[1][0])
+        gstep, g = max(b.work.items(), key=lambda kv: kv[1][1])
+        pstep, pk = max(b.work.items(), key=lambda kv: kv[1][2])
         den = max(len(data), SIZE_FLOOR)
-        rows.append((lines / den, req / den, src, len(data), nsec, nseg, step, lines, bstep, req,
+        rows.append((w[0] / den, g[1] / den, pk[2] / den, src, len(data), nsec, nseg, step, w[0], gstep, g[1], pstep, pk[2],
                      sorted((s, sorted(n)) for s, n in b.excs.items())))
     rows.sort()
     for r in rows:
-        print('%-72s len=%8d sec=%5d seg=%3d  max-lines %-28s %9d (%.3f/B)  max-req %-28s %9d (%.3f/B) %s'
-              % (r[2], r[3], r[4], r[5], r[6], r[7], r[0], r[8], r[9], r[1], r[10] or ''))
-    print('max line events per max(len,64K) byte: %.3f   max requested bytes per byte: %.3f'
-          % (max(r[0] for r in rows), max(r[1] for r in rows)))
+        print('%-66s len=%8d sec=%4d seg=%3d lines %-14s %7d (%.3f/B) read %-14s %8d (%.3f/B) peak %-14s %8d (%.3f/B) %s'
+              % (r[3][-66:], r[4], r[5], r[6], r[7], r[8], r[0], r[9], r[10], r[1], r[11], r[12], r[2], r[13] or ''))
+    print('per max(len,64K) byte: max line events %.3f, max bytes read %.3f, max single request %.3f'
+          % (max(r[0] for r in rows), max(r[1] for r in rows), max(r[2] for r in rows)))
 
 
 if __name__ == '__main__':
